@@ -504,6 +504,24 @@ func VerifRunFetchLoop(cfg VerifLoopConfig) *VerifLoopResult {
 
 	done := make(chan error, 1)
 	if !cfg.Trace {
+		if cfg.ImportEvery > 0 {
+			// a concurrent importer, as processFullSyncContent is for the real loop
+			go func() {
+				for {
+					select {
+					case <-d.cancelCh:
+						return
+					case <-time.After(5 * time.Millisecond):
+					}
+					rs := resultsView(d.queue.Results(false))
+					if len(rs) > 0 {
+						lock.Lock()
+						res.Results = append(res.Results, rs...)
+						lock.Unlock()
+					}
+				}
+			}()
+		}
 		go func() { done <- d.fetchBodies() }()
 	} else {
 		// the callbacks of fetchBodies, verbatim, each wrapped with a recorder
@@ -591,6 +609,10 @@ func VerifRunFetchLoop(cfg VerifLoopConfig) *VerifLoopResult {
 		case <-time.After(2 * time.Second):
 		}
 	}
+	d.cancel()                        // stops the concurrent importer (if any); the loop has returned or is abandoned
+	time.Sleep(10 * time.Millisecond) // let an importer iteration in progress finish
+	lock.Lock()
+	defer lock.Unlock()
 	res.PendingBlocks, res.InFlight = d.queue.PendingBlocks(), d.queue.InFlightBlocks()
 	for {
 		rs := resultsView(d.queue.Results(false))
@@ -598,7 +620,7 @@ func VerifRunFetchLoop(cfg VerifLoopConfig) *VerifLoopResult {
 			break
 		}
 		res.Results = append(res.Results, rs...)
-		record(VerifLoopEvent{Kind: "X", Results: rs, Dump: dump()})
+		res.Events = append(res.Events, VerifLoopEvent{Kind: "X", Results: rs, Dump: dump()})
 	}
 	for _, fp := range fakes {
 		fp.lock.Lock()
